@@ -86,20 +86,21 @@ type Summary struct {
 	ViolCases   map[string][]uint64 // scope name -> all violating case indices
 	Extra       map[string]any
 	PostViol    []Violation // violations found by Check.Post (reported as they are)
-	Internal    []string // internal errors (exit 2)
+	Internal    []string    // internal errors (exit 2)
 	Caps        []string
 }
 
 type agg struct {
-	mu      sync.Mutex
-	sum     *Summary
-	sketch  *Sketch
-	scopes  []*Scope
-	pending []job
-	inflight int
-	deaths  int
-	stop    bool
-	cond    *sync.Cond
+	mu            sync.Mutex
+	sum           *Summary
+	sketch        *Sketch
+	scopes        []*Scope
+	pending       []job
+	inflight      int
+	deaths        int
+	deathsByScope map[int]int
+	stop          bool
+	cond          *sync.Cond
 }
 
 const maxDeaths = 3
@@ -427,13 +428,25 @@ func RunScopes(env *Env, exe string, scopes []*Scope, jobs []job) *Summary {
 				}
 				a.mu.Lock()
 				a.deaths++
-				if a.deaths >= maxDeaths && !a.stop {
-					// every death costs a watchdog period; the run already has its counterexamples
-					a.stop = true
-					a.pending = nil
-					requeue = nil
+				if a.deathsByScope == nil {
+					a.deathsByScope = map[int]int{}
+				}
+				a.deathsByScope[j.scope]++
+				if a.deathsByScope[j.scope] == maxDeaths {
+					// every death costs a watchdog period and this scope already has its counterexamples:
+					// drop the rest of this scope, go on with the others
+					var keep []job
+					for _, pj := range a.pending {
+						if pj.scope != j.scope {
+							keep = append(keep, pj)
+						}
+					}
+					a.pending = keep
 					a.sum.Exhaustive = false
-					a.sum.Caps = append(a.sum.Caps, fmt.Sprintf("exploration stopped after %d worker deaths (hangs/crashes), each reported as a violation", a.deaths))
+					a.sum.Caps = append(a.sum.Caps, fmt.Sprintf("scope %s abandoned after %d worker deaths (hangs/crashes), each reported as a violation", scopes[j.scope].Name, maxDeaths))
+				}
+				if a.deathsByScope[j.scope] >= maxDeaths {
+					requeue = nil
 				}
 				a.mu.Unlock()
 				dead := &shardResult{Scope: j.scope, NViol: 1, Execs: 1,
